@@ -548,6 +548,8 @@ func (c *c24Ctx) localDBPhase(f *c24LFix, z c24Zone) {
 		}()
 	}
 	wg.Wait()
+	// verifier state x engine faults on the same DB (c24localfault.go)
+	c.cacheFaultPhase(f, z, tdb)
 	r.Event("localdb_phase/zone=" + z.name)
 }
 
@@ -689,5 +691,7 @@ func c24LocalRequire() (classes, events []string) {
 	}
 	events = append(events, "localdb_accept", "localdb_reject",
 		"localdb_covering_chain_served_from_the_local_db", "localdb_remote_asked_when_no_local_chain_covers")
+	fcls, fevs := c24CacheFaultRequire()
+	classes, events = append(classes, fcls...), append(events, fevs...)
 	return classes, events
 }
